@@ -14,6 +14,7 @@ EXTENDS NslTypes, TLC, Json, SequencesExt
 CONSTANTS Tier, MaxCands
 
 Uni == IF Tier = "quick" THEN {TInt, TFloat, Vec("float", 2)}
+       ELSE IF Tier = "vectors" THEN {TInt, Vec("int", 2), Vec("float", 2), Vec("float", 3)}      \* several types of one shape class
        ELSE {TInt, TUInt, TFloat, Vec("int", 2), Vec("float", 2), Vec("float", 3)}
 Sigs == {<<>>} \cup {<<a>> : a \in Uni} \cup {<<a, b>> : a \in Uni, b \in Uni}
 ArgSeq == SetToSeq(Sigs)                      \* fixed order of the argument lists in a row
